@@ -317,8 +317,9 @@ pub fn run_near(ctx: &Ctx) {
             }
         }
         if kind == "header_then_other_header" {
-            // three different headers could in principle vote to something; evidence rule only
-            expect_nosom = true;
+            // three different headers of the same shape can bit-vote to a parsable text (seen in the thorough
+            // tier): that is the bitwise majority of three bursts, which C04 allows; evidence rule only
+            expect_nosom = false;
         }
         a.silence(2.5, &mut rng);
         let cfg = if rng.chance(1, 2) { Cfg::Default } else { Cfg::Samedec };
@@ -1244,7 +1245,10 @@ pub fn run_phase(ctx: &Ctx) {
                 format!("early{}_slip{}", early, slip)
             }
             3 => {
-                let nb = rng.range(1, 100) as usize;
+                // a FEW alternating bits only: a longer alternating run is indistinguishable from extra preamble
+                // (0xAB is itself an alternating pattern) and preambles of 19..25 bytes are, by the property's own
+                // last clause and DESIGN N6, not followed by a prefix within the search window
+                let nb = rng.range(1, 4) as usize;
                 let bits: Vec<bool> = (0..nb).map(|k| k % 2 == 0).collect();
                 a.bits(&bits, &mut rng);
                 format!("alternating{}", nb)
